@@ -75,19 +75,19 @@ func setup(args map[string]string, tier string) error {
 		{name: "full@0.8+trace", docs: docs, thr: 0.8, traced: true},
 		{name: "small@0.7+trace", docs: small, thr: 0.7, traced: true},
 	}
-	// an integer updated through sync/atomic is legitimate shared state (and
-	// holds no pointers): make its page writable instead of trapping the store
-	simrt.OnAtomicWrite = func(addr uintptr) {
+	// atomic operations on frozen addresses are virtualised by simrt
+	simrt.IsFrozen = func(addr uintptr) bool {
 		for _, w := range worlds {
 			if w.arena != nil && w.arena.Contains(addr) {
-				w.arena.Thaw(addr)
+				return true
 			}
 		}
 		for _, a := range coldArenas {
 			if a.Contains(addr) {
-				a.Thaw(addr)
+				return true
 			}
 		}
+		return false
 	}
 	return selfTest()
 }
@@ -250,9 +250,10 @@ type call struct {
 	errKind string
 	style   int
 	// outcome
-	res  classifier.Results
-	err  error
-	data []byte // the caller's buffer
+	res     classifier.Results
+	resLive classifier.Results // the structures the call returned (scribbled on afterwards)
+	err     error
+	data    []byte // the caller's buffer
 }
 
 func run(c *hlib.Ctx) *hlib.Run {
@@ -277,6 +278,14 @@ func runAttempt(c *hlib.Ctx, s *choice.Stream, freezeClock bool) (*hlib.Run, int
 	out := &hlib.Run{Counters: map[string]int64{}}
 	w := worlds[s.Pick([]int{5, 5, 1, 2}, "world")]
 	ww := w
+	defer func() {
+		if isFullWorld(ww) && (out.Violation != nil || out.Counters["fault_reader_error_injected"] > 0) && ww.arena != nil {
+			// do not let this run's effects on the shared instance reach the next run
+			ww.arena.Release()
+			ww.c, ww.arena, ww.orig = nil, nil, nil
+			out.Counters["full_world_discarded_after_run"]++
+		}
+	}()
 	warm := w.get()
 	cl := warm
 	isFull := strings.HasPrefix(w.name, "full")
@@ -284,7 +293,12 @@ func runAttempt(c *hlib.Ctx, s *choice.Stream, freezeClock bool) (*hlib.Run, int
 	// built (and frozen) instance, so lazily initialised or memoised state is
 	// still unset when they meet; the solo reference comes from the equivalent
 	// warm instance.
-	cold := !isFull && s.Draw(4, "cold-instance") == 0
+	// Small worlds are always cold (a fresh instance per run): whatever a run
+	// does to the instance — a leaked semaphore slot after a failing reader, a
+	// memo — cannot leak into the next run, so every run replays exactly. The
+	// full corpus takes 4.5 s to build and freeze and is therefore reused; it
+	// is discarded after every run that injected reader faults or failed.
+	cold := !isFull
 	if cold {
 		cw := &world{name: w.name + "(cold)", docs: w.docs, thr: w.thr, traced: w.traced}
 		cl = cw.get()
@@ -307,6 +321,10 @@ func runAttempt(c *hlib.Ctx, s *choice.Stream, freezeClock bool) (*hlib.Run, int
 		}
 		inputs[i] = pool.Gen(s, max)
 	}
+	faultsAllowed := !isFull || s.Draw(20, "faults-on-full-world") == 0
+	// fault-heavy crowd runs: dozens of calls whose readers fail (resources a
+	// call takes and must give back on every path only run out after many failures)
+	faultHeavy := !isFull && s.Draw(15, "fault-heavy-run") == 0
 	ntasks := 2 + s.Draw(7, "n-tasks")
 	switch s.Draw(10, "task-class") {
 	case 0:
@@ -315,6 +333,9 @@ func runAttempt(c *hlib.Ctx, s *choice.Stream, freezeClock bool) (*hlib.Run, int
 		if !isFull {
 			ntasks = 17 + s.Draw(48, "n-tasks-crowd")
 		}
+	}
+	if faultHeavy {
+		ntasks = 48 + s.Draw(49, "n-tasks-fault-heavy")
 	}
 	plan := make([][]*call, ntasks)
 	ncalls := 0
@@ -329,10 +350,10 @@ func runAttempt(c *hlib.Ctx, s *choice.Stream, freezeClock bool) (*hlib.Run, int
 			if t > 0 && s.Draw(2, "twin") == 0 {
 				k.input = plan[t-1][0].input
 			}
-			if s.Draw(3, "stream") == 0 {
+			if s.Draw(3, "stream") == 0 || faultHeavy {
 				k.stream = true
 				k.style = s.Pick([]int{3, 1, 1, 2}, "reader-style")
-				if s.Draw(6, "reader-fault") == 0 {
+				if s.Draw(6, "reader-fault") == 0 && (faultsAllowed || faultHeavy) || (faultHeavy && s.Draw(4, "fault-heavy") != 0) {
 					e, kind := v2kit.MakeErr(s.Draw(v2kit.ErrKinds, "fault-kind"))
 					k.fault = &v2kit.Fault{At: s.Draw(len(inputs[k.input].Data)+1, "fault-at"), Err: e, WithData: s.Draw(2, "with-data") == 1}
 					k.errKind = kind
@@ -396,6 +417,13 @@ func runAttempt(c *hlib.Ctx, s *choice.Stream, freezeClock bool) (*hlib.Run, int
 					} else {
 						k.res = cl.Match(data)
 					}
+					k.resLive = k.res
+					// The caller owns what it got back: it keeps a copy for the
+					// comparison and then changes the returned structures (as a
+					// caller translating line numbers to file coordinates would).
+					// No other call, now or later, may see that.
+					k.res = copyResults(k.res)
+					scribble(k.resLive)
 					simrt.Point("call returned")
 				}
 			}))
@@ -519,6 +547,9 @@ func trapViolation(rep *simrt.Report, w *world, during string) *hlib.Violation {
 	for _, p := range rep.Panics {
 		if p.Fault && w.arena != nil && w.arena.Contains(p.FaultAddr) {
 			frames := topFrames(p.Stack, 4)
+			if len(frames) == 0 {
+				frames = []string{"caller-changing-its-own-result(the result aliases corpus memory)"}
+			}
 			return &hlib.Violation{Oracle: "frozen-corpus", Class: "write-to-shared-corpus:" + strings.Join(frames, "<-"),
 				Message: fmt.Sprintf("store into pre-existing classifier memory (address %#x in the read-only arena) during %s, task %d (%s): under the memory model this is a data race as soon as two calls touch the same location\n%s", p.FaultAddr, during, p.Task, p.Name, trimStack(p.Stack))}
 		}
@@ -563,6 +594,35 @@ func topFrames(stack string, n int) []string {
 	}
 	return out
 }
+
+func copyResults(r classifier.Results) classifier.Results {
+	out := classifier.Results{TotalInputLines: r.TotalInputLines}
+	for _, m := range r.Matches {
+		if m == nil {
+			out.Matches = append(out.Matches, nil)
+			continue
+		}
+		c := *m
+		out.Matches = append(out.Matches, &c)
+	}
+	return out
+}
+
+func scribble(r classifier.Results) {
+	for i, m := range r.Matches {
+		if m != nil {
+			m.StartLine += 1000
+			m.EndLine += 1000
+			m.Confidence = -1
+			m.Name = "scribbled-by-caller"
+		}
+		if i+1 < len(r.Matches) {
+			r.Matches[i], r.Matches[i+1] = r.Matches[i+1], r.Matches[i]
+		}
+	}
+}
+
+func isFullWorld(w *world) bool { return strings.HasPrefix(w.name, "full") }
 
 func sequential(fn func()) *simrt.Report {
 	sim := simrt.New(choice.Replay(nil), simrt.Config{Strategy: simrt.StratSticky, MaxSteps: 1 << 40})
@@ -631,6 +691,9 @@ func main() {
 		Property: "C09",
 		Setup:    setup,
 		Run:      run,
+		// the classifier is shared by the runs of a worker process: a finding is
+		// confirmed in a fresh process before it is recorded
+		ChildVerify: true,
 		Info: func() map[string]any {
 			info := map[string]any{
 				"real_code":  []string{"v2 classifier package and go-diff: re-compiled from the tree under test / module cache after source instrumentation (yield points, map-order seam, map / global / captured-variable access events, virtual clock)", "go-spew, regexp, sort, crc32, html: real, uninstrumented"},
